@@ -138,6 +138,11 @@ Definition hw_tick (nf : option nspec) (tw tr : bool) (regs : list Z) : list Z :
 
 Definition zlist_eqb := zl_eqb.
 Definition inb (x : Z) (l : list Z) : bool := existsb (Z.eqb x) l.
+Fixpoint dedup (l : list Z) : list Z :=
+  match l with
+  | [] => []
+  | x :: r => if inb x r then dedup r else x :: dedup r
+  end.
 Definition is_reg (offsets : list Z) (addr : Z) (nf : option nspec) : bool :=
   match nf, reg_at offsets addr O with
   | Some s, Some k => Nat.eqb k s.(n_reg)
@@ -222,9 +227,9 @@ Definition axi_monitor_x (K : Z) (offsets wmasks : list Z) (nf : option nspec) :
       let r_unasked_hs := hs_r && (m.(r_pend) =? 0) in
       (* values the addressed register held since the address was accepted *)
       let cur := match reg_at offsets r_addr1 O with
-                 | Some k => [nth k m.(regs_old) 0; nth k m.(regs_new) 0; nth k regs_old1 0; nth k regs_new1 0; nth k regsv 0]
+                 | Some k => dedup [nth k m.(regs_old) 0; nth k m.(regs_new) 0; nth k regs_old1 0; nth k regs_new1 0; nth k regsv 0]
                  | None => [] end in
-      let r_cand1 := if hs_ar then cur else if r_pend1 =? 1 then (if m.(r_seen) =? 1 then m.(r_cand) else cur ++ m.(r_cand)) else [] in
+      let r_cand1 := if hs_ar then cur else if r_pend1 =? 1 then (if m.(r_seen) =? 1 then m.(r_cand) else dedup (cur ++ m.(r_cand))) else [] in
       let r_first := (rv =? 1) && (m.(r_seen) =? 0) && (r_pend1 =? 1) in
       let r_data_bad := r_first && match reg_at offsets r_addr1 O with
                                    | Some _ => negb (inb (vnum rdata) r_cand1)
@@ -287,3 +292,163 @@ Definition axi_m0 (defaults : list Z) : list Z :=
          r_pend := 0; r_addr := 0; r_wait := 0; r_seen := 0;
          p_ntw := 0; p_ntr := 0; nw_done := 0; nr_done := 0;
          regs_old := defaults; regs_new := defaults; r_cand := []; sink := 0 |}.
+
+(** ** facts about the reference data model (stated as theorems in Props/C20_Properties.v) *)
+
+Lemma byte_mask_range strb : 0 <= byte_mask strb <= 4294967295.
+Proof. unfold byte_mask. destruct (Z.testbit strb 0), (Z.testbit strb 1), (Z.testbit strb 2), (Z.testbit strb 3); cbn; split; discriminate. Qed.
+
+(** bit [i] of the byte mask is strobe bit [i / 8] *)
+Lemma byte_mask_bit strb i : 0 <= i < 32 -> Z.testbit (byte_mask strb) i = Z.testbit strb (i / 8).
+Proof.
+  intros Hi. unfold byte_mask.
+  set (b0 := Z.testbit strb 0). set (b1 := Z.testbit strb 1). set (b2 := Z.testbit strb 2). set (b3 := Z.testbit strb 3).
+  assert (R : Z.testbit strb (i / 8) = if i <? 8 then b0 else if i <? 16 then b1 else if i <? 24 then b2 else b3).
+  { destruct (i <? 8) eqn:E1; [apply Z.ltb_lt in E1; replace (i / 8) with 0 by (symmetry; apply Z.div_small; lia); reflexivity|].
+    apply Z.ltb_ge in E1.
+    destruct (i <? 16) eqn:E2; [apply Z.ltb_lt in E2; replace (i / 8) with 1 by (apply (Z.div_unique i 8 1 (i - 8)); lia); reflexivity|].
+    apply Z.ltb_ge in E2.
+    destruct (i <? 24) eqn:E3; [apply Z.ltb_lt in E3; replace (i / 8) with 2 by (apply (Z.div_unique i 8 2 (i - 16)); lia); reflexivity|].
+    apply Z.ltb_ge in E3. replace (i / 8) with 3 by (apply (Z.div_unique i 8 3 (i - 24)); lia). reflexivity. }
+  rewrite R. clearbody b0 b1 b2 b3. clear R.
+  assert (H : i = 0 \/ i = 1 \/ i = 2 \/ i = 3 \/ i = 4 \/ i = 5 \/ i = 6 \/ i = 7 \/ i = 8 \/ i = 9 \/ i = 10 \/ i = 11
+              \/ i = 12 \/ i = 13 \/ i = 14 \/ i = 15 \/ i = 16 \/ i = 17 \/ i = 18 \/ i = 19 \/ i = 20 \/ i = 21 \/ i = 22
+              \/ i = 23 \/ i = 24 \/ i = 25 \/ i = 26 \/ i = 27 \/ i = 28 \/ i = 29 \/ i = 30 \/ i = 31) by lia.
+  destruct b0, b1, b2, b3; repeat (destruct H as [-> | H]; [reflexivity|]); subst; reflexivity.
+Qed.
+
+Lemma byte_mask_bit_out strb i : i < 0 \/ 32 <= i -> Z.testbit (byte_mask strb) i = false.
+Proof.
+  intros [H|H]; [apply Z.testbit_neg_r; exact H|].
+  pose proof (byte_mask_range strb) as R.
+  destruct (Z.eq_dec (byte_mask strb) 0) as [E|E]; [rewrite E; apply Z.bits_0|].
+  apply Z.bits_above_log2; [lia|].
+  assert (Z.log2 (byte_mask strb) < 32) by (apply Z.log2_lt_pow2; [lia|]; change (2 ^ 32) with 4294967296; lia).
+  lia.
+Qed.
+
+(** a write changes exactly the bits that are strobed and bus-writable, to the written data *)
+Lemma merge_masked_bit old data strb wmask i : 0 <= i < 32 ->
+  Z.testbit (merge_masked old data strb wmask) i =
+  if Z.testbit strb (i / 8) && Z.testbit wmask i then Z.testbit data i else Z.testbit old i.
+Proof.
+  intros Hi. unfold merge_masked. rewrite Z.lor_spec, Z.ldiff_spec, !Z.land_spec, (byte_mask_bit _ _ Hi).
+  destruct (Z.testbit strb (i / 8)), (Z.testbit wmask i), (Z.testbit old i), (Z.testbit data i); reflexivity.
+Qed.
+
+Lemma merge_masked_bit_out old data strb wmask i : i < 0 \/ 32 <= i ->
+  Z.testbit (merge_masked old data strb wmask) i = Z.testbit old i.
+Proof.
+  intros Hi. unfold merge_masked. rewrite Z.lor_spec, Z.ldiff_spec, !Z.land_spec, (byte_mask_bit_out _ _ Hi).
+  cbn. rewrite andb_false_r, orb_false_r, andb_true_r. reflexivity.
+Qed.
+
+(** bits outside the write mask (read-only from the bus) never change *)
+Lemma merge_masked_readonly old data strb wmask i :
+  Z.testbit wmask i = false -> Z.testbit (merge_masked old data strb wmask) i = Z.testbit old i.
+Proof.
+  intros Hw. destruct (Z_lt_dec i 0) as [H|H]; [apply merge_masked_bit_out; lia|].
+  destruct (Z_le_dec 32 i) as [H'|H']; [apply merge_masked_bit_out; lia|].
+  rewrite merge_masked_bit by lia. rewrite Hw, andb_false_r. reflexivity.
+Qed.
+
+Lemma all32_bit i : 0 <= i < 32 -> Z.testbit all32 i = true.
+Proof. intros Hi. change all32 with (Z.ones 32). apply Z.ones_spec_low. exact Hi. Qed.
+
+(** plain words: exactly the strobed bytes, nothing else *)
+Lemma strobe_merge_bit old data strb i : 0 <= i < 32 ->
+  Z.testbit (strobe_merge old data strb) i = if Z.testbit strb (i / 8) then Z.testbit data i else Z.testbit old i.
+Proof. intros Hi. unfold strobe_merge. rewrite merge_masked_bit, all32_bit, andb_true_r by exact Hi. reflexivity. Qed.
+
+Lemma strobe_merge_bit_out old data strb i : i < 0 \/ 32 <= i ->
+  Z.testbit (strobe_merge old data strb) i = Z.testbit old i.
+Proof. apply merge_masked_bit_out. Qed.
+
+(** [set_nthz] / [reg_at] *)
+Lemma set_nthz_length l k x : length (set_nthz l k x) = length l.
+Proof. revert k; induction l as [|y r IH]; intros [|k]; cbn; auto. Qed.
+
+Lemma set_nthz_same l k x : (k < length l)%nat -> nth k (set_nthz l k x) 0 = x.
+Proof. revert k; induction l as [|y r IH]; intros [|k] H; cbn in *; try lia; auto. apply IH. lia. Qed.
+
+Lemma set_nthz_other l k j x : j <> k -> nth j (set_nthz l k x) 0 = nth j l 0.
+Proof. revert k j; induction l as [|y r IH]; intros [|k] [|j] H; cbn; auto; try congruence. Qed.
+
+Lemma reg_at_none offsets addr s :
+  (forall o, In o offsets -> addr / 4 <> o / 4) -> reg_at offsets addr s = None.
+Proof.
+  revert s; induction offsets as [|o r IH]; intros s H; cbn; [reflexivity|].
+  destruct (addr / 4 =? o / 4) eqn:E; [apply Z.eqb_eq in E; exfalso; apply (H o); [left; reflexivity|exact E]|].
+  apply IH. intros o' Ho'. apply H. right. exact Ho'.
+Qed.
+
+Lemma reg_at_some offsets addr s k :
+  reg_at offsets addr s = Some k -> (s <= k)%nat /\ (k - s < length offsets)%nat /\ nth (k - s) offsets 0 / 4 = addr / 4.
+Proof.
+  revert s; induction offsets as [|o r IH]; intros s H; cbn in H; [discriminate|].
+  destruct (addr / 4 =? o / 4) eqn:E.
+  - injection H as <-. apply Z.eqb_eq in E. replace (s - s)%nat with O by lia. cbn. split; [lia|split; [lia|symmetry; exact E]].
+  - apply IH in H. destruct H as (H1 & H2 & H3). replace (k - s)%nat with (S (k - S s)) by lia. cbn. split; [lia|split; [lia|exact H3]].
+Qed.
+
+(** a write to an unmapped address leaves every register unchanged *)
+Lemma ref_write_unmapped offsets wmasks regs addr data strb :
+  (forall o, In o offsets -> addr / 4 <> o / 4) -> ref_write offsets wmasks regs addr data strb = regs.
+Proof. intros H. unfold ref_write. rewrite (reg_at_none _ _ _ H). reflexivity. Qed.
+
+(** a write leaves every register but the addressed one unchanged *)
+Lemma ref_write_other offsets wmasks regs addr data strb j :
+  reg_at offsets addr O <> Some j -> nth j (ref_write offsets wmasks regs addr data strb) 0 = nth j regs 0.
+Proof.
+  intros H. unfold ref_write. destruct (reg_at offsets addr O) as [k|]; [|reflexivity].
+  apply set_nthz_other. congruence.
+Qed.
+
+(** ... and the addressed one gets the masked merge *)
+Lemma ref_write_addressed offsets wmasks regs addr data strb k :
+  reg_at offsets addr O = Some k -> (k < length regs)%nat ->
+  nth k (ref_write offsets wmasks regs addr data strb) 0 = merge_masked (nth k regs 0) data strb (nth k wmasks all32).
+Proof. intros H Hk. unfold ref_write. rewrite H. apply set_nthz_same. exact Hk. Qed.
+
+Lemma ref_write_length offsets wmasks regs addr data strb :
+  length (ref_write offsets wmasks regs addr data strb) = length regs.
+Proof. unfold ref_write. destruct (reg_at offsets addr O); [apply set_nthz_length|reflexivity]. Qed.
+
+(** a read returns the register mapped at the word of the address *)
+Lemma ref_read_mapped offsets regs addr v :
+  ref_read offsets regs addr = Some v ->
+  exists k, (k < length offsets)%nat /\ nth k offsets 0 / 4 = addr / 4 /\ v = nth k regs 0.
+Proof.
+  unfold ref_read. destruct (reg_at offsets addr O) as [k|] eqn:E; [|discriminate].
+  intros [= <-]. apply reg_at_some in E. destruct E as (_ & H2 & H3). rewrite Nat.sub_0_r in *.
+  exists k. repeat split; assumption.
+Qed.
+
+(** the hardware model moves only the bits of its own fields *)
+Lemma cnt_tick_outside v shift width i :
+  0 <= shift -> 0 <= width -> i < shift \/ shift + width <= i ->
+  Z.testbit (cnt_tick v shift width) i = Z.testbit v i.
+Proof.
+  intros Hs Hw Hi. destruct (Z_lt_dec i 0) as [Hn|Hn]; [rewrite !Z.testbit_neg_r by exact Hn; reflexivity|].
+  unfold cnt_tick, field_mask. rewrite Z.lor_spec, Z.ldiff_spec.
+  destruct Hi as [Hi|Hi].
+  - rewrite !Z.shiftl_spec_low by exact Hi. cbn. rewrite andb_true_r, orb_false_r. reflexivity.
+  - rewrite !Z.shiftl_spec by lia. rewrite Z.ones_spec_high by lia. rewrite Z.mod_pow2_bits_high by lia.
+    cbn. rewrite andb_true_r, orb_false_r. reflexivity.
+Qed.
+
+Lemma tog_tick_other v shift i : 0 <= shift -> i <> shift -> Z.testbit (tog_tick v shift) i = Z.testbit v i.
+Proof.
+  intros Hs Hi. unfold tog_tick. rewrite Z.lxor_spec, Z.shiftl_1_l, Z.pow2_bits_false by (intro; apply Hi; symmetry; assumption).
+  apply xorb_false_r.
+Qed.
+
+Lemma tog_tick_bit v shift : 0 <= shift -> Z.testbit (tog_tick v shift) shift = negb (Z.testbit v shift).
+Proof. intros Hs. unfold tog_tick. rewrite Z.lxor_spec, Z.shiftl_1_l, Z.pow2_bits_true by exact Hs. apply xorb_true_r. Qed.
+
+Lemma hw_tick_other nf tw tr regs j :
+  match nf with Some s => j <> s.(n_reg) | None => True end -> nth j (hw_tick nf tw tr regs) 0 = nth j regs 0.
+Proof.
+  unfold hw_tick. destruct nf as [s|]; [|reflexivity]. intros H.
+  destruct (tw || tr); [apply set_nthz_other; exact H|reflexivity].
+Qed.
